@@ -94,6 +94,8 @@ class Ctx(object):
         self.canaries_refuted = 0
         self.bounded = []
         self.bounded_mode = bool(getattr(unit, "bounded", False))
+        self.cvc5_budget = {}
+        self.cvc5_results = []
 
     def _rec(self, name, status, **kw):
         r = {"name": name, "status": status, "unit": self.unit.name, "bounded": self.bounded_mode}
@@ -115,9 +117,18 @@ class Ctx(object):
             excuses.append((f, ez))
         t0 = time.time()
         main = z3.Or([cz] + [ez for _, ez in excuses]) if excuses else cz
+        recheck = self.tier == "thorough" and self.cvc5_budget.get(name, 0) < 3
+        eng.keep_smt2 = recheck
         res = eng.oblige(name, main, info=info)
+        eng.keep_smt2 = False
         if res.status == "discharged":
-            self._rec(name, "discharged", time_s=res.time_s, sample=info)
+            extra = {}
+            if recheck and res.vc_smt2:
+                self.cvc5_budget[name] = self.cvc5_budget.get(name, 0) + 1
+                verdict = cvc5_recheck(res.vc_smt2, timeout_s=30)
+                extra["cvc5"] = verdict
+                self.cvc5_results.append((name, verdict))
+            self._rec(name, "discharged", time_s=res.time_s, sample=info, **extra)
         elif res.status == "failed":
             self._rec(name, "failed", model=_jsonable(res.model), time_s=res.time_s, smt2=res.vc_smt2,
                       sample=info)
@@ -195,7 +206,7 @@ def _worker(job):
     out = {"unit": unit_cls, "split": _jsonable(split), "records": [], "paths": 0, "infeasible": 0,
            "solver_time": 0.0, "solver_calls": 0, "error": None, "unsupported": None,
            "crosschecks": 0, "cross_mismatch": [], "canaries": 0, "canaries_refuted": 0,
-           "covers": {}, "interpreted": [], "bounded": []}
+           "covers": {}, "interpreted": [], "bounded": [], "cvc5": []}
     try:
         mod = importlib.import_module(unit_mod)
         unit = getattr(mod, unit_cls)()
@@ -217,6 +228,7 @@ def _worker(job):
         out["covers"] = eng.covers
         out["interpreted"] = sorted(eng.functions_interpreted)
         out["bounded"] = ctx.bounded
+        out["cvc5"] = ctx.cvc5_results
     except Exception:
         out["error"] = traceback.format_exc()
     out["wall"] = time.time() - t0
